@@ -310,6 +310,15 @@ def getattr_(interp, o: ExtObj, name: str) -> Any:
         # rdflib terms are str subclasses: every str method that rdflib does not override works on the text
         if hasattr(str, name) and not name.startswith("__") and name not in ("format", "format_map"):
             return ExtMethod(str_of(interp, o), "str", name)
+        try:
+            import rdflib as _rdflib
+
+            real = getattr(_rdflib, k.split(".")[1], None)
+        except ImportError:
+            real = None
+        if real is None or hasattr(real, name):
+            # the real class has this attribute (or cannot be consulted): a gap of the model, not an error of the program
+            raise interp.unsupported(f"attribute {name} of {k} is not modelled")
         raise interp.exc("AttributeError", f"'{k}' object has no attribute '{name}'")
     if k in GRAPH_KINDS:
         if name == "identifier":
